@@ -10,6 +10,7 @@ import (
 	"strings"
 
 	jdoc "github.com/jsightapi/jsight-schema-core/formats/json"
+	"github.com/jsightapi/jsight-schema-core/fs"
 	"github.com/jsightapi/jsight-schema-core/lexeme"
 	"github.com/jsightapi/jsight-schema-core/verifhook"
 
@@ -253,12 +254,12 @@ func c12Doc(r *mon.Run, doc []byte, trailing bool) (deadPrefix bool) {
 		var err2, err3, err4, lerr2, lerr3 error
 		var ln2, ln3 uint
 		if p := mon.Guard(func() {
-			d2 := jdoc.New("doc", doc, opts...)
+			d2 := jdoc.FromFile(fs.NewFile("doc", doc), opts...) // the other public constructor
 			ln2, lerr2 = d2.Len()
 			err2 = d2.Check()
 			err3 = d2.Check()
 			ln3, lerr3 = d2.Len()
-			d3 := jdoc.New("doc", doc, opts...)
+			d3 := jdoc.New("doc", string(doc), opts...) // content given as a string
 			for i := 0; i <= 2*len(doc)+4; i++ {
 				if _, e := d3.NextLexeme(); e != nil {
 					break
